@@ -111,6 +111,21 @@ add("C08", "AdfSyntax.tla is a recursive-descent recogniser of the documented gr
     "<= 4 statements; whitespace outside the documented places is DONT_CARE.",
     "TLA+ recogniser of the documented grammar (round trip model-checked) as three-valued oracle; TLC trace validation of real parser / CLI observations", "6/C08")
 
+add("C09", "Each compiled ADF is validated individually by TLC from the logged ASTs, roots and complete node table: statement by statement, for every "
+    "assignment of the statement's support (all variables for <= 5 statements) in several contexts, walking the logged table equals evaluating the written "
+    "formula; for the pre-grounded import TLC computes the grounded interpretation with support-local validity tests (so 20-40 statement ADFs are decided) "
+    "and substitutes it. Native, bridge and pre-grounded bridge paths under all three sort modes; table shape invariants on every table.",
+    "Trusted: TLC evaluating Eval / the support-local least fixpoint; the harness mapping formula atoms to the reported variable positions by label. "
+    "Bounded: supports <= 9, 3 contexts for the non-support variables of large ADFs.",
+    "TLC trace validation of compiled diagrams against the written formulas (exhaustive on each statement's support), incl. TLC-computed grounded substitution", "6/C09")
+add("C10", "MC_Perm: Sem(pi.adf) = pi.Sem(adf) for grounded / complete / two-valued / stable, every ADF over 2 statements and 2197 over 3 x all "
+    "permutations - the metamorphic relation is a theorem of the specification. Real library: each base ADF in 3-4 presentations; TLC reads every answer "
+    "back as a map from base statement to value through the reported labels and requires equal sets of maps across presentations and back-ends, equality "
+    "with the definition for small bases, preserved labels, and byte-wise order under lexicographic sorting.",
+    "Trusted: TLC evaluating AdfSem; ASCII labels. Bounded: 20-32 statement instances only when the grounded interpretation leaves <= 7 statements undecided "
+    "for the model-enumerating semantics.",
+    "TLA+ permutation lemma model-checked; TLC trace validation of answers across presentations (relational + oracle)", "6/C10")
+
 def main():
     hooks = subprocess.run(["git", "-C", "/repo", "log", "--format=%H %s"], stdout=subprocess.PIPE, text=True).stdout.splitlines()
     hook_commits = [l.split()[0] for l in hooks if " verif hook" in l]
